@@ -68,7 +68,12 @@ func (c *Ctx) directEffects(fn *ssa.Function) effectSet {
 				}
 			} else if _, isB := cc.Value.(*ssa.Builtin); !isB {
 				if _, isMC := cc.Value.(*ssa.MakeClosure); !isMC {
-					out["dynamiccall"] = true
+					// a call through a func-typed parameter that every module
+					// call site binds to a known function is no unknown call:
+					// those functions are summarised at the sites that pass them
+					if _, isPrm := cc.Value.(*ssa.Parameter); !isPrm || len(calleeCandidates(c, cc)) == 0 {
+						out["dynamiccall"] = true
+					}
 				}
 			}
 			if _, ok := in.(*ssa.Go); ok {
@@ -447,6 +452,22 @@ func (mr *mapRange) classify(c *Ctx, eff map[*ssa.Function]effectSet) {
 						continue
 					}
 					tok["call:other:"+funcObjName(o)] = true
+					continue
+				}
+				// a local closure called directly: summarised like any module callee
+				if sc := cc.StaticCallee(); sc != nil && sc.Blocks != nil {
+					e := eff[sc]
+					bad := []string{}
+					for _, k := range []string{"streamwrite", "fswrite", "globalwrite", "dynamiccall", "go"} {
+						if e[k] {
+							bad = append(bad, k)
+						}
+					}
+					if len(bad) == 0 {
+						tok["call:clean"] = true
+					} else {
+						tok["call:impure:"+sc.Name()+"("+strings.Join(bad, "+")+")"] = true
+					}
 					continue
 				}
 				tok["call:dynamic"] = true
